@@ -203,7 +203,7 @@ def replay(log, method):
                 if (site == "loop" and fault["atTarget"]) or (site == "post" and not e["cb"]):
                     return {"skipped": "fault at a position without user code", "mismatches": mism, "calls": ncall - 1}
                 st["arm"] = (site, fault["nrows"], fault["depth"])
-            kw = {"t": e["target"] * S}
+            kw = {"t": (e["target"] * S if abs(e["target"]) != 999 else float("inf") * (1 if e["target"] > 0 else -1))}      # 999: OdeSystem!Infinity
             if e["ev"]:
                 kw["events"] = evw
             if e["cb"]:
